@@ -1,1 +1,855 @@
-// reference tree filesystem (filled in later)
+// Reference tree filesystem written from the trait documentation (src/sys/fs/vfs.rs), not from memfs/vfs.rs.
+// step() returns the set of acceptable (result pattern, post state) outcomes of one call.
+use std::collections::BTreeMap;
+
+use crate::{
+    fsops::*,
+    refs::{ref_abs, Env},
+};
+
+#[derive(Clone, Debug)]
+pub enum Pat {
+    Exact(Res),
+    ErrKind(Vec<&'static str>),
+    AnyErr,
+    AnyBool,
+}
+impl Pat {
+    pub fn matches(&self, r: &Res) -> bool {
+        match (self, r) {
+            (Pat::Exact(a), b) => a == b,
+            (Pat::ErrKind(ks), Res::Err(k)) => ks.iter().any(|x| x == k),
+            (Pat::AnyErr, Res::Err(_)) => true,
+            (Pat::AnyBool, Res::Bool(_)) => true,
+            _ => false,
+        }
+    }
+    pub fn describe(&self) -> String {
+        match self {
+            Pat::Exact(Res::Err(k)) => format!("Err({})", k),
+            Pat::Exact(r) => {
+                let s = r.short();
+                if s.len() > 120 {
+                    "Ok(value)".into()
+                } else {
+                    s
+                }
+            },
+            Pat::ErrKind(k) => format!("Err({})", k.join("|")),
+            Pat::AnyErr => "Err".into(),
+            Pat::AnyBool => "bool".into(),
+        }
+    }
+    pub fn class(&self) -> String {
+        match self {
+            Pat::Exact(Res::Err(k)) => format!("Err({})", k),
+            Pat::Exact(_) | Pat::AnyBool => "Ok".into(),
+            Pat::ErrKind(k) => format!("Err({})", k.join("|")),
+            Pat::AnyErr => "Err".into(),
+        }
+    }
+}
+#[derive(Clone, Debug)]
+pub struct Outcome {
+    pub res: Pat,
+    pub post: NTree,
+    pub either: &'static str, // "" when documented, else the either-point label
+}
+pub enum Expect {
+    Outcomes(Vec<Outcome>),
+    Unspecified(&'static str),
+}
+
+pub const DIR_DEFAULT: u32 = 0o40755;
+pub const FILE_DEFAULT: u32 = 0o100644;
+pub const LINK_MODE: u32 = 0o120777;
+pub const OWNER: u32 = 1000;
+
+pub fn ref_relative(p: &str, b: &str) -> String {
+    if p == b {
+        return p.to_string();
+    }
+    let pc: Vec<&str> = p.split('/').filter(|x| !x.is_empty()).collect();
+    let bc: Vec<&str> = b.split('/').filter(|x| !x.is_empty()).collect();
+    let common = pc.iter().zip(bc.iter()).take_while(|(x, y)| x == y).count();
+    let mut out: Vec<&str> = vec![];
+    for _ in common..bc.len() {
+        out.push("..");
+    }
+    out.extend(&pc[common..]);
+    out.join("/")
+}
+
+#[derive(Debug, PartialEq)]
+pub enum SymErr {
+    First,
+    Later,
+}
+/// The documented grammar `[dfa]:[ugoa]+[-+=][rwx]+` (comma repeatable) evaluated clause by clause
+pub fn ref_chmod_sym(mode: u32, is_dir: bool, is_file: bool, sym: &str) -> Result<u32, SymErr> {
+    let mut m = mode;
+    for (i, clause) in sym.split(',').enumerate() {
+        let bad = || if i == 0 { SymErr::First } else { SymErr::Later };
+        let (tgt, rest) = clause.split_once(':').ok_or_else(bad)?;
+        if tgt.len() != 1 || !"dfa".contains(tgt) {
+            return Err(bad());
+        }
+        let opi = rest.find(|c| c == '-' || c == '+' || c == '=').ok_or_else(bad)?;
+        let (grp, opperm) = rest.split_at(opi);
+        let op = opperm.chars().next().unwrap();
+        let perm = &opperm[1..];
+        if grp.is_empty() || perm.is_empty() {
+            return Err(bad());
+        }
+        let mut g = 0u32;
+        for c in grp.chars() {
+            g |= match c {
+                'u' => 0o700,
+                'g' => 0o070,
+                'o' => 0o007,
+                'a' => 0o777,
+                _ => return Err(bad()),
+            };
+        }
+        let mut p = 0u32;
+        for c in perm.chars() {
+            p |= match c {
+                'r' => 0o444,
+                'w' => 0o222,
+                'x' => 0o111,
+                _ => return Err(bad()),
+            };
+        }
+        let applies = match tgt {
+            "a" => true,
+            "d" => is_dir,
+            _ => is_file,
+        };
+        if applies {
+            m = match op {
+                '-' => m & !(g & p),
+                '+' => m | (g & p),
+                _ => (m & !g) | (g & p),
+            };
+        }
+    }
+    Ok(m)
+}
+
+pub struct Model {
+    pub t: NTree,
+    pub env: Env,
+}
+
+fn one(res: Pat, post: NTree) -> Expect {
+    Expect::Outcomes(vec![Outcome { res, post, either: "" }])
+}
+fn errk(k: &'static str) -> Pat {
+    Pat::ErrKind(vec![k])
+}
+
+impl Model {
+    pub fn new(home: &str) -> Model {
+        let mut env = Env::new();
+        env.insert("HOME".into(), home.into());
+        Model { t: NTree::fresh(), env }
+    }
+    pub fn abs(&self, p: &str) -> Option<Result<String, ()>> {
+        ref_abs(&self.env, &self.t.cwd, p)
+    }
+    fn unchanged(&self, res: Pat) -> Expect {
+        one(res, self.t.clone())
+    }
+    fn node(&self, p: &str) -> Option<&NNode> {
+        self.t.nodes.get(p)
+    }
+    fn is_dirlike(&self, p: &str) -> bool {
+        matches!(self.node(p), Some(NNode { kind: NKind::Dir, .. }) | Some(NNode { kind: NKind::Link { dir: true, .. }, .. }))
+    }
+
+    pub fn entry_view(&self, a: &str) -> Option<EntryView> {
+        let n = self.node(a)?;
+        let (alt, rel, link, d, f) = match &n.kind {
+            NKind::Link { target, dir } => (target.clone(), ref_relative(target, &parent_of(a).unwrap_or_else(|| "/".into())), true, *dir, !*dir),
+            NKind::Dir => (String::new(), String::new(), false, true, false),
+            NKind::File(_) => (String::new(), String::new(), false, false, true),
+        };
+        Some(EntryView {
+            path: a.to_string(),
+            alt,
+            rel,
+            is_dir: d,
+            is_file: f,
+            is_symlink: link,
+            is_symlink_dir: link && d,
+            is_symlink_file: link && f,
+            is_exec: n.mode & 0o111 != 0,
+            is_readonly: n.mode & 0o222 == 0,
+            following: false,
+            mode: n.mode,
+            file_name: if a == "/" { None } else { Some(base_of(a).to_string()) },
+        })
+    }
+
+    /// DFS pre-order, siblings by name, not descending into links; excludes the root itself
+    pub fn listing(&self, a: &str, recursive: bool) -> Vec<String> {
+        let mut out = vec![];
+        let mut kids = self.t.children(a);
+        kids.sort_by(|x, y| base_of(x).cmp(base_of(y)));
+        for k in kids {
+            out.push(k.clone());
+            if recursive && self.t.is_real_dir(&k) {
+                out.extend(self.listing(&k, true));
+            }
+        }
+        out
+    }
+
+    /// parent checks shared by every creating call: Ok(()) or the documented error
+    fn parent_ok(&self, a: &str) -> Result<(), Pat> {
+        match parent_of(a) {
+            None => Err(Pat::AnyErr),
+            Some(d) => match self.node(&d) {
+                None => Err(errk("DoesNotExist")),
+                Some(NNode { kind: NKind::Dir, .. }) => Ok(()),
+                Some(_) => Err(errk("IsNotDir")),
+            },
+        }
+    }
+
+    fn write_like(&self, p: &str, data: &[u8], append: bool) -> Expect {
+        let a = match self.abs(p) {
+            None => return Expect::Unspecified("abs"),
+            Some(Err(())) => return self.unchanged(Pat::AnyErr),
+            Some(Ok(a)) => a,
+        };
+        if a == "/" {
+            return self.unchanged(Pat::AnyErr);
+        }
+        if let Err(e) = self.parent_ok(&a) {
+            return self.unchanged(e);
+        }
+        let mut post = self.t.clone();
+        match self.node(&a) {
+            None => {
+                post.nodes.insert(a, NNode { kind: NKind::File(data.to_vec()), mode: FILE_DEFAULT, uid: OWNER, gid: OWNER });
+            },
+            Some(NNode { kind: NKind::File(old), .. }) => {
+                let mut d = if append { old.clone() } else { vec![] };
+                d.extend_from_slice(data);
+                post.nodes.get_mut(&a).unwrap().kind = NKind::File(d);
+            },
+            Some(_) => return self.unchanged(errk("IsNotFile")),
+        }
+        one(Pat::Exact(Res::Unit), post)
+    }
+
+    fn mkdirs(&self, a: &str, mode: u32) -> Result<NTree, Pat> {
+        let mut post = self.t.clone();
+        let mut cur = String::new();
+        for c in a.split('/').filter(|x| !x.is_empty()) {
+            cur.push('/');
+            cur.push_str(c);
+            match post.nodes.get(&cur) {
+                None => {
+                    post.nodes.insert(cur.clone(), NNode { kind: NKind::Dir, mode, uid: OWNER, gid: OWNER });
+                },
+                Some(NNode { kind: NKind::Dir, .. }) => {},
+                Some(_) => return Err(errk("IsNotDir")),
+            }
+        }
+        Ok(post)
+    }
+
+    pub fn step(&self, op: &Op) -> Expect {
+        use Op::*;
+        // resolve the first path argument where there is one
+        let abs1 = |p: &str| -> Result<String, Expect> {
+            match self.abs(p) {
+                None => Err(Expect::Unspecified("abs")),
+                Some(Err(())) => Err(if op.is_query() && matches!(op, Exists(_) | IsDir(_) | IsFile(_) | IsSymlink(_) | IsSymlinkDir(_) | IsSymlinkFile(_) | IsExec(_) | IsReadonly(_)) {
+                    self.unchanged(Pat::Exact(Res::Bool(false)))
+                } else {
+                    self.unchanged(Pat::AnyErr)
+                }),
+                Some(Ok(a)) => Ok(a),
+            }
+        };
+        macro_rules! a1 {
+            ($p:expr) => {
+                match abs1($p) {
+                    Ok(a) => a,
+                    Err(e) => return e,
+                }
+            };
+        }
+        match op {
+            MkdirP(p) | MkdirM(p, _) => {
+                let a = a1!(p);
+                let mode = match op {
+                    MkdirM(_, m) => *m | 0o40000,
+                    _ => DIR_DEFAULT,
+                };
+                match self.mkdirs(&a, mode) {
+                    Ok(post) => one(Pat::Exact(Res::Path(a)), post),
+                    Err(e) => self.unchanged(e),
+                }
+            },
+            Mkfile(p) | MkfileM(p, _) => {
+                let a = a1!(p);
+                if a == "/" {
+                    return self.unchanged(Pat::AnyErr);
+                }
+                if let Err(e) = self.parent_ok(&a) {
+                    return self.unchanged(e);
+                }
+                let mut post = self.t.clone();
+                match self.node(&a) {
+                    None => {
+                        post.nodes.insert(a.clone(), NNode { kind: NKind::File(vec![]), mode: FILE_DEFAULT, uid: OWNER, gid: OWNER });
+                    },
+                    Some(NNode { kind: NKind::File(_), .. }) => {},
+                    Some(_) => return self.unchanged(errk("IsNotFile")),
+                }
+                if let MkfileM(_, m) = op {
+                    if *m & 0o7777 == 0 {
+                        return Expect::Unspecified("mode 0");
+                    }
+                    post.nodes.get_mut(&a).unwrap().mode = *m | 0o100000;
+                }
+                one(Pat::Exact(Res::Path(a)), post)
+            },
+            WriteAll(p, d) | WriteH(p, d) => self.write_like(p, d, false),
+            AppendAll(p, d) | AppendH(p, d) => self.write_like(p, d, true),
+            WriteLines(p, l) => {
+                let d: String = l.iter().map(|x| format!("{}\n", x)).collect();
+                self.write_like(p, d.as_bytes(), false)
+            },
+            AppendLine(p, l) => self.write_like(p, format!("{}\n", l).as_bytes(), true),
+            AppendLines(p, l) => {
+                let d: String = l.iter().map(|x| format!("{}\n", x)).collect();
+                self.write_like(p, d.as_bytes(), true)
+            },
+            ReadAll(p) | ReadLines(p) | ReadBytes(p) => {
+                let a = a1!(p);
+                match self.node(&a) {
+                    None => self.unchanged(errk("DoesNotExist")),
+                    Some(NNode { kind: NKind::File(d), .. }) => match op {
+                        ReadBytes(_) => self.unchanged(Pat::Exact(Res::Bytes(d.clone()))),
+                        ReadAll(_) => match String::from_utf8(d.clone()) {
+                            Ok(s) => self.unchanged(Pat::Exact(Res::Text(s))),
+                            Err(_) => self.unchanged(Pat::AnyErr),
+                        },
+                        _ => {
+                            use std::io::BufRead;
+                            let r: Result<Vec<String>, _> = std::io::BufReader::new(&d[..]).lines().collect();
+                            match r {
+                                Ok(l) => self.unchanged(Pat::Exact(Res::Lines(l))),
+                                Err(_) => self.unchanged(Pat::AnyErr),
+                            }
+                        },
+                    },
+                    Some(NNode { kind: NKind::Dir, .. }) => self.unchanged(errk("IsNotFile")),
+                    Some(_) => self.unchanged(Pat::ErrKind(vec!["IsNotFile", "DoesNotExist"])),
+                }
+            },
+            Remove(p) => {
+                let a = a1!(p);
+                if a == "/" {
+                    return self.unchanged(Pat::AnyErr);
+                }
+                match self.node(&a) {
+                    None => Expect::Outcomes(vec![
+                        Outcome { res: Pat::Exact(Res::Unit), post: self.t.clone(), either: "remove(absent)=Ok" },
+                        Outcome { res: Pat::AnyErr, post: self.t.clone(), either: "remove(absent)=Err" },
+                    ]),
+                    Some(n) => {
+                        if n.kind == NKind::Dir && !self.t.children(&a).is_empty() {
+                            return self.unchanged(errk("DirContainsFiles"));
+                        }
+                        let mut post = self.t.clone();
+                        post.nodes.remove(&a);
+                        one(Pat::Exact(Res::Unit), post)
+                    },
+                }
+            },
+            RemoveAll(p) => {
+                let a = a1!(p);
+                if a == "/" {
+                    return Expect::Unspecified("remove_all(/)");
+                }
+                let mut post = self.t.clone();
+                for k in self.t.subtree(&a) {
+                    post.nodes.remove(&k);
+                }
+                one(Pat::Exact(Res::Unit), post)
+            },
+            MoveP(s, d) => {
+                let sa = a1!(s);
+                let da = match self.abs(d) {
+                    None => return Expect::Unspecified("abs"),
+                    Some(Err(())) => return self.unchanged(Pat::AnyErr),
+                    Some(Ok(a)) => a,
+                };
+                if self.node(&sa).is_none() {
+                    return self.unchanged(errk("DoesNotExist"));
+                }
+                if sa == "/" {
+                    if da == "/" {
+                        return Expect::Outcomes(vec![
+                            Outcome { res: Pat::Exact(Res::Unit), post: self.t.clone(), either: "move_p(onto itself)=Ok" },
+                            Outcome { res: Pat::AnyErr, post: self.t.clone(), either: "move_p(onto itself)=Err" },
+                        ]);
+                    }
+                    return self.unchanged(Pat::AnyErr);
+                }
+                let fin = if self.t.is_real_dir(&da) { join(&da, base_of(&sa)) } else { da.clone() };
+                if fin == sa {
+                    return Expect::Outcomes(vec![
+                        Outcome { res: Pat::Exact(Res::Unit), post: self.t.clone(), either: "move_p(onto itself)=Ok" },
+                        Outcome { res: Pat::AnyErr, post: self.t.clone(), either: "move_p(onto itself)=Err" },
+                    ]);
+                }
+                if is_under(&fin, &sa) || is_under(&sa, &fin) {
+                    // into its own subtree, or a descendant over its own ancestor
+                    return self.unchanged(Pat::AnyErr);
+                }
+                // destination parent must be a real directory
+                match parent_of(&fin).and_then(|x| self.node(&x).cloned()) {
+                    Some(NNode { kind: NKind::Dir, .. }) => {},
+                    _ => return self.unchanged(Pat::AnyErr),
+                }
+                let src_is_dir = self.t.is_real_dir(&sa);
+                let mut moved = self.t.clone();
+                // whatever lives at the destination is replaced
+                for k in self.t.subtree(&fin) {
+                    moved.nodes.remove(&k);
+                }
+                for k in self.t.subtree(&sa) {
+                    let n = moved.nodes.remove(&k).unwrap();
+                    let nk = format!("{}{}", fin, &k[sa.len()..]);
+                    moved.nodes.insert(nk, n);
+                }
+                let ok = Outcome { res: Pat::Exact(Res::Unit), post: moved, either: "" };
+                match self.node(&fin) {
+                    None => Expect::Outcomes(vec![ok]),
+                    Some(NNode { kind: NKind::Dir, .. }) => {
+                        let empty = self.t.children(&fin).is_empty();
+                        let mut v = vec![Outcome { res: Pat::AnyErr, post: self.t.clone(), either: "move_p(onto existing dir)=Err" }];
+                        if empty && src_is_dir {
+                            v.push(Outcome { either: "move_p(dir onto empty dir)=Ok", ..ok });
+                        }
+                        Expect::Outcomes(v)
+                    },
+                    Some(_) => {
+                        if src_is_dir {
+                            Expect::Outcomes(vec![
+                                Outcome { res: Pat::AnyErr, post: self.t.clone(), either: "move_p(dir onto file)=Err" },
+                                Outcome { either: "move_p(dir onto file)=Ok", ..ok },
+                            ])
+                        } else {
+                            Expect::Outcomes(vec![ok])
+                        }
+                    },
+                }
+            },
+            Copy(s, d) | CopyB(s, d, _, _) => self.copy(op, s, d),
+            Symlink(l, t) => {
+                let la = a1!(l);
+                if la == "/" {
+                    return self.unchanged(Pat::AnyErr);
+                }
+                let traw = if t.starts_with('/') { t.clone() } else { format!("{}/{}", parent_of(&la).unwrap(), t) };
+                if t.is_empty() {
+                    return Expect::Unspecified("symlink(empty target)");
+                }
+                let ta = match self.abs(&traw) {
+                    None => return Expect::Unspecified("abs"),
+                    Some(Err(())) => return self.unchanged(Pat::AnyErr),
+                    Some(Ok(a)) => a,
+                };
+                if let Err(e) = self.parent_ok(&la) {
+                    return self.unchanged(e);
+                }
+                if self.node(&la).is_some() {
+                    return Expect::Outcomes(vec![
+                        Outcome { res: Pat::AnyErr, post: self.t.clone(), either: "symlink(existing)=Err" },
+                        Outcome { res: Pat::Exact(Res::Path(la.clone())), post: self.t.clone(), either: "symlink(existing)=Ok" },
+                    ]);
+                }
+                let dir = self.is_dirlike(&ta);
+                let mut post = self.t.clone();
+                post.nodes.insert(la.clone(), NNode { kind: NKind::Link { target: ta, dir }, mode: LINK_MODE, uid: OWNER, gid: OWNER });
+                one(Pat::Exact(Res::Path(la)), post)
+            },
+            Readlink(p) | ReadlinkAbs(p) => {
+                let a = a1!(p);
+                match self.node(&a) {
+                    None => self.unchanged(errk("DoesNotExist")),
+                    Some(NNode { kind: NKind::Link { target, .. }, .. }) => {
+                        if let Readlink(_) = op {
+                            self.unchanged(Pat::Exact(Res::Path(ref_relative(target, &parent_of(&a).unwrap()))))
+                        } else {
+                            self.unchanged(Pat::Exact(Res::Path(target.clone())))
+                        }
+                    },
+                    Some(_) => self.unchanged(errk("IsNotSymlink")),
+                }
+            },
+            Chmod(p, m) => self.chmod(p, &ChmodO { all: Some(*m), dirs: None, files: None, sym: None, recurse: None, follow: false }),
+            ChmodB(p, o) => self.chmod(p, o),
+            Chown(p, u, g) => self.chown(p, &ChownO { uid: Some(*u), gid: Some(*g), recurse: None, follow: false }),
+            ChownB(p, o) => self.chown(p, o),
+            SetCwd(p) => {
+                let a = a1!(p);
+                let mut post = self.t.clone();
+                post.cwd = a.clone();
+                match self.node(&a) {
+                    None => self.unchanged(errk("DoesNotExist")),
+                    Some(NNode { kind: NKind::Dir, .. }) | Some(NNode { kind: NKind::Link { dir: true, .. }, .. }) => one(Pat::Exact(Res::Path(a)), post),
+                    Some(_) => Expect::Outcomes(vec![
+                        Outcome { res: Pat::Exact(Res::Path(a)), post, either: "set_cwd(file)=Ok" },
+                        Outcome { res: Pat::AnyErr, post: self.t.clone(), either: "set_cwd(file)=Err" },
+                    ]),
+                }
+            },
+            Cwd => self.unchanged(Pat::Exact(Res::Path(self.t.cwd.clone()))),
+            Root => self.unchanged(Pat::Exact(Res::Path("/".into()))),
+            Abs(p) => match self.abs(p) {
+                None => Expect::Unspecified("abs"),
+                Some(Err(())) => self.unchanged(Pat::AnyErr),
+                Some(Ok(a)) => self.unchanged(Pat::Exact(Res::Path(a))),
+            },
+            Exists(p) => {
+                let a = a1!(p);
+                self.unchanged(Pat::Exact(Res::Bool(self.node(&a).is_some())))
+            },
+            IsDir(p) => {
+                let a = a1!(p);
+                self.unchanged(Pat::Exact(Res::Bool(self.t.is_real_dir(&a))))
+            },
+            IsFile(p) => {
+                let a = a1!(p);
+                self.unchanged(Pat::Exact(Res::Bool(matches!(self.node(&a), Some(NNode { kind: NKind::File(_), .. })))))
+            },
+            IsSymlink(p) => {
+                let a = a1!(p);
+                self.unchanged(Pat::Exact(Res::Bool(matches!(self.node(&a), Some(NNode { kind: NKind::Link { .. }, .. })))))
+            },
+            IsSymlinkDir(p) => {
+                let a = a1!(p);
+                self.unchanged(Pat::Exact(Res::Bool(matches!(self.node(&a), Some(NNode { kind: NKind::Link { dir: true, .. }, .. })))))
+            },
+            IsSymlinkFile(p) => {
+                let a = a1!(p);
+                self.unchanged(Pat::Exact(Res::Bool(matches!(self.node(&a), Some(NNode { kind: NKind::Link { dir: false, .. }, .. })))))
+            },
+            IsExec(p) | IsReadonly(p) => {
+                let a = a1!(p);
+                match self.node(&a) {
+                    None => self.unchanged(Pat::Exact(Res::Bool(false))),
+                    Some(NNode { kind: NKind::Link { .. }, .. }) => self.unchanged(Pat::AnyBool),
+                    Some(n) => self.unchanged(Pat::Exact(Res::Bool(if let IsExec(_) = op { n.mode & 0o111 != 0 } else { n.mode & 0o222 == 0 }))),
+                }
+            },
+            Mode(p) | Owner(p) | Uid(p) | Gid(p) => {
+                let a = a1!(p);
+                match self.node(&a) {
+                    None => self.unchanged(errk("DoesNotExist")),
+                    Some(n) => self.unchanged(Pat::Exact(match op {
+                        Mode(_) => Res::Num(n.mode),
+                        Owner(_) => Res::Pair(n.uid, n.gid),
+                        Uid(_) => Res::Num(n.uid),
+                        _ => Res::Num(n.gid),
+                    })),
+                }
+            },
+            Entry(p) => {
+                let a = a1!(p);
+                match self.entry_view(&a) {
+                    None => self.unchanged(errk("DoesNotExist")),
+                    Some(e) => self.unchanged(Pat::Exact(Res::Entry(e))),
+                }
+            },
+            Paths(p) | Dirs(p) | Files(p) | AllPaths(p) | AllDirs(p) | AllFiles(p) => {
+                let a = a1!(p);
+                if !self.t.is_real_dir(&a) {
+                    return self.unchanged(errk("IsNotDir"));
+                }
+                let rec = matches!(op, AllPaths(_) | AllDirs(_) | AllFiles(_));
+                let l: Vec<String> = self
+                    .listing(&a, rec)
+                    .into_iter()
+                    .filter(|k| match op {
+                        Dirs(_) | AllDirs(_) => self.is_dirlike(k),
+                        Files(_) | AllFiles(_) => !self.is_dirlike(k),
+                        _ => true,
+                    })
+                    .collect();
+                self.unchanged(Pat::Exact(Res::Paths(l)))
+            },
+            Entries(p) => {
+                let a = a1!(p);
+                if self.node(&a).is_none() {
+                    return self.unchanged(errk("DoesNotExist"));
+                }
+                let mut v = vec![self.entry_view(&a).unwrap()];
+                if self.t.is_real_dir(&a) {
+                    for k in self.listing(&a, true) {
+                        v.push(self.entry_view(&k).unwrap());
+                    }
+                }
+                v.sort();
+                self.unchanged(Pat::Exact(Res::Items(v)))
+            },
+        }
+    }
+
+    /// entries a chmod/chown visits: (path, via_follow)
+    fn visited(&self, a: &str, recurse: bool, follow: bool) -> Option<Vec<String>> {
+        let mut out = vec![];
+        let mut stack = vec![(a.to_string(), 0usize)];
+        let mut guard = 0;
+        while let Some((p, depth)) = stack.pop() {
+            guard += 1;
+            if guard > 500 {
+                return None; // link cycle under follow: LinkLooping territory, not modelled here
+            }
+            let n = match self.node(&p) {
+                Some(n) => n,
+                None => continue,
+            };
+            match &n.kind {
+                NKind::Link { target, .. } => {
+                    if follow {
+                        if self.node(target).is_some() {
+                            stack.push((target.clone(), depth));
+                        }
+                    } else {
+                        out.push(p.clone());
+                    }
+                },
+                NKind::Dir => {
+                    out.push(p.clone());
+                    if recurse {
+                        for c in self.t.children(&p) {
+                            stack.push((c, depth + 1));
+                        }
+                    }
+                },
+                NKind::File(_) => out.push(p.clone()),
+            }
+        }
+        out.sort();
+        out.dedup();
+        Some(out)
+    }
+
+    fn chmod(&self, p: &str, o: &ChmodO) -> Expect {
+        let a = match self.abs(p) {
+            None => return Expect::Unspecified("abs"),
+            Some(Err(())) => return self.unchanged(Pat::AnyErr),
+            Some(Ok(a)) => a,
+        };
+        if self.node(&a).is_none() {
+            return self.unchanged(errk("DoesNotExist"));
+        }
+        let (mut d, mut f) = (o.dirs.unwrap_or(0), o.files.unwrap_or(0));
+        if let Some(x) = o.all {
+            // builder order in exec(): all first, then dirs / files override
+            if o.dirs.is_none() {
+                d = x;
+            }
+            if o.files.is_none() {
+                f = x;
+            }
+        }
+        if o.all == Some(0) || o.dirs == Some(0) || o.files == Some(0) {
+            return Expect::Unspecified("octal mode 0");
+        }
+        if d > 0o7777 || f > 0o7777 {
+            return Expect::Unspecified("octal mode with type bits");
+        }
+        let sym = o.sym.clone().unwrap_or_default();
+        let recurse = o.recurse.unwrap_or(true);
+        let vis = match self.visited(&a, recurse, o.follow) {
+            Some(v) => v,
+            None => return Expect::Unspecified("link cycle under follow"),
+        };
+        let mut post = self.t.clone();
+        for k in vis {
+            let n = post.nodes.get_mut(&k).unwrap();
+            let (is_dir, is_file) = match n.kind {
+                NKind::Dir => (true, false),
+                NKind::File(_) => (false, true),
+                NKind::Link { .. } => continue, // a symlink itself never changes
+            };
+            let octal = if is_dir { d } else { f };
+            if octal != 0 {
+                n.mode = (n.mode & !0o7777) | octal;
+            } else if !sym.is_empty() {
+                match ref_chmod_sym(n.mode, is_dir, is_file, &sym) {
+                    Ok(m) => n.mode = m,
+                    Err(SymErr::First) => return self.unchanged(Pat::AnyErr),
+                    Err(SymErr::Later) => return Expect::Unspecified("malformed later clause"),
+                }
+            }
+        }
+        if !sym.is_empty() && d == 0 && f == 0 {
+            // a malformed first clause is an error even when nothing is visited that it applies to
+            if let Err(SymErr::First) = ref_chmod_sym(0, true, false, &sym) {
+                return self.unchanged(Pat::AnyErr);
+            }
+        }
+        one(Pat::Exact(Res::Unit), post)
+    }
+
+    fn chown(&self, p: &str, o: &ChownO) -> Expect {
+        let a = match self.abs(p) {
+            None => return Expect::Unspecified("abs"),
+            Some(Err(())) => return self.unchanged(Pat::AnyErr),
+            Some(Ok(a)) => a,
+        };
+        if self.node(&a).is_none() {
+            return self.unchanged(errk("DoesNotExist"));
+        }
+        let vis = match self.visited(&a, o.recurse.unwrap_or(true), o.follow) {
+            Some(v) => v,
+            None => return Expect::Unspecified("link cycle under follow"),
+        };
+        let mut post = self.t.clone();
+        for k in vis {
+            let n = post.nodes.get_mut(&k).unwrap();
+            if let Some(u) = o.uid {
+                n.uid = u;
+            }
+            if let Some(g) = o.gid {
+                n.gid = g;
+            }
+        }
+        one(Pat::Exact(Res::Unit), post)
+    }
+
+    fn copy(&self, op: &Op, s: &str, d: &str) -> Expect {
+        let (cmode, follow) = match op {
+            Op::CopyB(_, _, m, f) => (m.clone(), *f),
+            _ => (CopyMode::None, false),
+        };
+        let sa = match self.abs(s) {
+            None => return Expect::Unspecified("abs"),
+            Some(Err(())) => return self.unchanged(Pat::AnyErr),
+            Some(Ok(a)) => a,
+        };
+        let da = match self.abs(d) {
+            None => return Expect::Unspecified("abs"),
+            Some(Err(())) => return self.unchanged(Pat::AnyErr),
+            Some(Ok(a)) => a,
+        };
+        if sa == da {
+            return Expect::Outcomes(vec![
+                Outcome { res: Pat::Exact(Res::Unit), post: self.t.clone(), either: "copy(onto itself)=Ok" },
+                Outcome { res: Pat::AnyErr, post: self.t.clone(), either: "copy(onto itself)=Err" },
+            ]);
+        }
+        if self.node(&sa).is_none() {
+            return self.unchanged(Pat::AnyErr);
+        }
+        if follow {
+            return Expect::Unspecified("copy with follow (judged relationally by C09)");
+        }
+        if sa == "/" {
+            return Expect::Unspecified("copy(/)");
+        }
+        let root = if self.t.is_real_dir(&da) { join(&da, base_of(&sa)) } else { da.clone() };
+        if root == sa || is_under(&root, &sa) || is_under(&sa, &root) {
+            return Expect::Unspecified("copy into itself / over an ancestor");
+        }
+        let (dir_mode, file_mode) = match cmode {
+            CopyMode::None => (None, None),
+            CopyMode::All(m) => (Some(m), Some(m)),
+            CopyMode::Dirs(m) => (Some(m), None),
+            CopyMode::Files(m) => (None, Some(m)),
+        };
+        if dir_mode == Some(0) || file_mode == Some(0) || dir_mode.unwrap_or(0) > 0o7777 || file_mode.unwrap_or(0) > 0o7777 {
+            return Expect::Unspecified("copy mode 0 / type bits");
+        }
+        let mut post = self.t.clone();
+        // parents first
+        let order: Vec<String> = self.t.subtree(&sa);
+        let mkdirs = |post: &mut NTree, p: &str, mode: u32| -> bool {
+            let mut cur = String::new();
+            for c in p.split('/').filter(|x| !x.is_empty()) {
+                cur.push('/');
+                cur.push_str(c);
+                match post.nodes.get(&cur) {
+                    None => {
+                        post.nodes.insert(cur.clone(), NNode { kind: NKind::Dir, mode: mode | 0o40000, uid: OWNER, gid: OWNER });
+                    },
+                    Some(NNode { kind: NKind::Dir, .. }) => {},
+                    Some(_) => return false,
+                }
+            }
+            true
+        };
+        for k in order {
+            let n = self.t.nodes.get(&k).unwrap().clone();
+            let dst = format!("{}{}", root, &k[sa.len()..]);
+            match &n.kind {
+                NKind::Link { target, .. } => {
+                    if *target == root || is_under(target, &root) {
+                        // the recorded kind depends on whether the target was copied before the link
+                        return Expect::Unspecified("copy: link pointing into the destination being created");
+                    }
+                    match parent_of(&dst).and_then(|x| post.nodes.get(&x).cloned()) {
+                        Some(NNode { kind: NKind::Dir, .. }) => {},
+                        _ => return Expect::Unspecified("copy: link destination parent missing"),
+                    }
+                    if post.nodes.contains_key(&dst) {
+                        return Expect::Unspecified("copy: link destination exists");
+                    }
+                    let dir = matches!(post.nodes.get(target), Some(NNode { kind: NKind::Dir, .. }) | Some(NNode { kind: NKind::Link { dir: true, .. }, .. }));
+                    post.nodes.insert(dst, NNode { kind: NKind::Link { target: target.clone(), dir }, mode: LINK_MODE, uid: OWNER, gid: OWNER });
+                },
+                NKind::Dir => {
+                    if !mkdirs(&mut post, &dst, dir_mode.unwrap_or(n.mode & 0o7777)) {
+                        return Expect::Unspecified("copy: directory destination occupied by a non-directory");
+                    }
+                },
+                NKind::File(data) => {
+                    let dp = parent_of(&dst).unwrap();
+                    if !post.nodes.contains_key(&dp) {
+                        let src_parent_mode = self.t.nodes.get(&parent_of(&k).unwrap()).map(|x| x.mode & 0o7777).unwrap_or(0o755);
+                        if !mkdirs(&mut post, &dp, dir_mode.unwrap_or(src_parent_mode)) {
+                            return Expect::Unspecified("copy: parent occupied");
+                        }
+                    }
+                    if !matches!(post.nodes.get(&dp), Some(NNode { kind: NKind::Dir, .. })) {
+                        return Expect::Unspecified("copy: file destination parent is not a directory");
+                    }
+                    match post.nodes.get_mut(&dst) {
+                        None => {
+                            post.nodes.insert(
+                                dst,
+                                NNode { kind: NKind::File(data.clone()), mode: file_mode.map(|m| m | 0o100000).unwrap_or(n.mode), uid: n.uid, gid: n.gid },
+                            );
+                        },
+                        Some(e) => match e.kind {
+                            NKind::File(_) => e.kind = NKind::File(data.clone()),
+                            _ => return Expect::Unspecified("copy: file destination occupied by a non-file"),
+                        },
+                    }
+                },
+            }
+        }
+        one(Pat::Exact(Res::Unit), post)
+    }
+}
+
+pub fn tree_from(t: &NTree, home: &str) -> Model {
+    let mut env = Env::new();
+    env.insert("HOME".into(), home.into());
+    Model { t: t.clone(), env }
+}
+
+#[allow(dead_code)]
+pub fn unused(_: BTreeMap<String, String>) {}
